@@ -172,8 +172,18 @@ def rule_R9(text, file, line0, log):
     return re.sub(r'\b(\w+)\s*:\s*fn\(\)\s*->\s*[\w<>:]+\s*,', sub, text)
 
 
+def rule_R15(text, file, line0, log):
+    """`::scale::X` (absolute path into the dependency crate, as written by its derive) -> `crate::scale::X`, the template's
+    declaration-only stand-in module for that dependency"""
+    n = len(re.findall(r'(?<![\w:])::scale::', text))
+    if n:
+        log.rw('R15', file, line0, '::scale:: (%d occurrences)' % n, 'crate::scale::')
+    return re.sub(r'(?<![\w:])::scale::', 'crate::scale::', text)
+
+
 def global_rules(text, file, line0, log, **kw):
     text = strip_attrs_and_vis(text, file, line0, log, **kw)
+    text = rule_R15(text, file, line0, log)
     text = rule_R9(text, file, line0, log)
     text = rule_R1(text, file, line0, log)
     text = rule_R2(text, file, line0, log)
@@ -291,7 +301,10 @@ class Extractor:
             word, _, rest = d.partition(' ')
             bare, quoted = parse_opts(rest)
             if word == 'include':
+                saved_pub = getattr(self, 'force_pub', False)
+                self.force_pub = saved_pub or ('pub' in bare[1:])
                 self._process(os.path.join(self.verif, 'contracts', bare[0]), external=('external' in bare[1:]))
+                self.force_pub = saved_pub
             elif word == 'def':
                 self._def(bare[0], bare[1], bare[2:])
             elif word in ('impl', 'trait'):
@@ -403,7 +416,7 @@ class Extractor:
         line0 = src.line_of(it.start)
         text = src.text[it.start:it.end]
         text = global_rules(text, rel, line0, self.log, derive_keep=keep)
-        if 'pub' in opts:
+        if 'pub' in opts or getattr(self, 'force_pub', False):
             # R3 variant: everything visible (needed where a std trait impl, e.g. Default, carries an ensures)
             text = re.sub(r'(^|\n)(\s*)(struct|enum)\b', r'\1\2pub \3', text, count=1)
             out, depth = [], 0
@@ -418,15 +431,20 @@ class Extractor:
 
     def _open(self, word, bare, quoted):
         rel = bare[0]
-        src = self.src(rel)
         nth = None
         for b in bare:
             if b.startswith('nth='):
                 nth = int(b[4:])
-        if word == 'impl':
+        if rel == 'expanded':
+            src, it = self._find_expanded_impl(quoted[0], prefix=True)
+            rel = 'rustc-expanded:src/lib.rs'
+            header_q = quoted[1:] if 'as' in bare else []
+        elif word == 'impl':
+            src = self.src(rel)
             it = src.find_impl(quoted[0], cfg=self.cfg, nth=nth)
             header_q = quoted[1:] if 'as' in bare else []
         else:
+            src = self.src(rel)
             it = src.find('trait', bare[1], cfg=self.cfg)
             header_q = quoted if 'as' in bare else []
         line0 = src.line_of(it.attr_end)
@@ -437,6 +455,28 @@ class Extractor:
             header = header_q[0]
         self.out.emit(header + ' {', 'repo', None, rel, line0)
         self.container = (word, it, src, rel, norm(header))
+
+    def _find_expanded_impl(self, header, prefix=False):
+        src = self.expanded_provider()
+        want = norm(header)
+        cands, stack = [], [(0, len(src.text))]
+        while stack:
+            l, h = stack.pop()
+            for x in src.items(l, h):
+                if x.kind == 'impl' and (x.header == want or (prefix and (x.header + ' ').startswith(want + ' '))):
+                    cands.append(x)
+                elif x.kind == 'mod' and x.body_open is not None:
+                    stack.append((x.body_open + 1, x.end - 1))
+                elif x.kind == 'const' and x.name == '_':
+                    # the `const _: () = { impl .. };` blocks derives are wrapped in
+                    bo = x.attr_end
+                    while bo < x.end and not (src.text[bo] == '{' and src.mask[bo]):
+                        bo += 1
+                    if bo < x.end:
+                        stack.append((bo + 1, match_close(src.text, src.mask, bo)))
+        if len(cands) != 1:
+            raise LostAnchor('macro-expanded source: expected exactly one `%s`, found %d' % (want, len(cands)))
+        return src, cands[0]
 
     def _expanded_impl(self, header):
         src = self.expanded_provider()
@@ -758,6 +798,19 @@ class Extractor:
                     edits.append((m6.start(), m6.end() - m6.start(), rep, False, 1))
                     edits.append((j, 0, '} ', False, -1))
                     self.log.rw('R6', rel, line0 + text.count('\n', 0, m6.start()), norm(m6.group(0)), rep + ' <rest of block> }')
+        # rule R14: a nested `const _: () = { .. };` item (compile-time assertions emitted by a derive) has no run-time effect
+        if has_body and not spec.external:
+            for m14 in re.finditer(r'(?:#\[[^\]]*\]\s*)*const\s+_\s*:\s*\(\)\s*=\s*\{', text[body_open:]):
+                st = body_open + m14.start()
+                if not mask[body_open + m14.end() - 1]:
+                    continue
+                cl = match_close(text, mask, body_open + m14.end() - 1)
+                j = cl + 1
+                while j < len(text) and text[j].isspace():
+                    j += 1
+                if j < len(text) and text[j] == ';':
+                    edits.append((st, j + 1 - st, '', False))
+                    self.log.rw('R14', rel, line0 + text.count('\n', 0, st), 'const _: () = { .. %d bytes of compile-time assertions .. };' % (j - st), '(dropped)')
         if kind == 'twinfn' and spec.twin_as:
             m = re.search(r'\bfn\s+' + re.escape(spec.name) + r'\b', text)
             edits.append((m.start(), m.end() - m.start(), 'fn ' + spec.twin_as, False))
